@@ -24,6 +24,7 @@ func init() {
 func runC11(ctx *Ctx) {
 	ruleJoinMergesRows(ctx, "C11-R6c")
 	ruleJoinedAlwaysClosed(ctx, "C11-R6d")
+	ruleResolutionOnlyWhenResolved(ctx, "C11-R9")
 	// pipelined clients handed out earlier end up referring to the resolved
 	// capability: what ClientPromise.Fulfill credits and when (shared with
 	// C10-R6b/R6c)
